@@ -745,7 +745,23 @@ pub fn poisoned_hashes() -> SlotHashes {
     })
 }
 
+thread_local! {
+    /// When set, `tc_config` builds the slot-hash pass the way
+    /// `tc::Config::default()` does (`StorageSlotHashes::new()`: a table of
+    /// its own, built by the library) instead of sharing one table between
+    /// the analyses of a worker.
+    static OWN_TABLE: std::cell::Cell<bool> = std::cell::Cell::new(false);
+}
+
+/// The next runs on this thread use a slot-hash table of their own.
+pub fn set_own_table(on: bool) {
+    OWN_TABLE.with(|f| f.set(on));
+}
+
 pub fn tc_config(poisoned: bool) -> tc::Config {
+    if !poisoned && OWN_TABLE.with(std::cell::Cell::get) {
+        return tc::Config::default();
+    }
     let table = if poisoned { poisoned_hashes() } else { shared_hashes() };
     // The default pass list of `LiftingPasses::default()`, in the same order,
     // with the hash table shared instead of recomputed.
